@@ -117,6 +117,11 @@ def get_harness(build, variant="plain", extra_flags=""):
         regs = []
         for s in srcs:
             regs += re.findall(r"^const opdef_t (ops_\w+)\[\]", open(s).read(), re.M)
+        import gen_api
+        try:
+            gen_api.generate(build); srcs = srcs + [os.path.join(build, "api_gen.c")]
+        except Exception as e:
+            raise BuildError("gen_api failed on the current mpir.h: %s" % e)
         reg_c = os.path.join(build, "h_registry.c")
         with open(reg_c, "w") as f:
             f.write('#include "harness.h"\n')
